@@ -60,6 +60,12 @@ def confirm(src, n, name, prop):
     ran = []
     try:
         rc, out = sh(["git", "-C", wt, "apply", patch])
+        if rc:      # the base moved on since the change was written: three-way
+            rc, out = sh(["git", "-C", wt, "apply", "--3way", patch])
+            if rc == 0:
+                sh(["git", "-C", wt, "reset", "-q"])
+                rc2, d = sh(["git", "-C", wt, "diff"])
+                open(patch, "w").write(d)
         ran.append("git apply: rc=%d" % rc)
         if rc:
             raise SystemExit("patch does not apply: " + out)
